@@ -102,7 +102,8 @@ structure GraphWF (inits : List TensorP) (inputs outputs vis : List ValueInfoP) 
   nodupVis : (vis.map (·.name)).Nodup
   visNotIO : ∀ vi ∈ vis, vi.name ∉ inputs.map (·.name) ∧ vi.name ∉ outputs.map (·.name)
   nodupOut : (outputs.map (·.name)).Nodup
-  outNotInInit : ∀ n ∈ outputs.map (·.name), n ∉ inputs.map (·.name) ∧ n ∉ inits.map (·.name)
+  outInput : ∀ vo ∈ outputs, vo.name ∈ inputs.map (·.name) → vo ∈ inputs
+  outNotNewInit : ∀ vo ∈ outputs, vo.name ∉ inputs.map (·.name) → vo.name ∉ inits.map (·.name)
   wfInit : inits.all (fun t => wfTensor t && validDType t.dataType) = true
   nodupQuant : (quant.map (·.tensorName)).Nodup
   quantOK : ∀ a ∈ quant, a.tensorName ∈ scopeNames (inputs.map (·.name)) (inits.map (·.name)) outs
@@ -185,14 +186,86 @@ theorem outUpd_of_mem {outputs : List ValueInfoP} (h : (outputs.map (·.name)).N
   unfold outUpd
   rw [hn, find?_of_nodup (·.name) h hvo]
 
+theorem dictSet_of_mem {d : Dict} {k v : String} (hnd : (dkeys d).Nodup) (h : (k, v) ∈ d) :
+    dictSet d k v = d := by
+  induction d with
+  | nil => cases h
+  | cons x xs ih =>
+    obtain ⟨k', v'⟩ := x
+    simp only [dkeys, List.map_cons, List.nodup_cons] at hnd
+    rcases List.mem_cons.1 h with h | h
+    · cases h; simp [dictSet]
+    · have hne : ¬ k' = k := by
+        intro e; subst e
+        exact hnd.1 (List.mem_map_of_mem (f := (·.1)) h)
+      simp only [dictSet, hne, if_false]
+      rw [ih (by simpa [dkeys] using hnd.2) h]
+
+theorem dictUpdate_of_subset {d : Dict} (hnd : (dkeys d).Nodup) :
+    ∀ u : Dict, (∀ x ∈ u, x ∈ d) → dictUpdate d u = d
+  | [], _ => rfl
+  | (k, v) :: u, h => by
+    simp only [dictUpdate]
+    rw [dictSet_of_mem hnd (h (k, v) (by simp))]
+    exact dictUpdate_of_subset hnd u (fun x hx => h x (List.mem_cons_of_mem _ hx))
+
+/-- re-applying the entry a value was built from changes nothing (pass-through outputs) -/
+theorem applyInfoT_self (q : List AnnotP) (vi : ValueInfoP) :
+    applyInfoT (constFrom inits (inputValT q vi)) vi = constFrom inits (inputValT q vi) := by
+  have hm : (constFrom inits (inputValT q vi)).mprops = dictOfEntries vi.metadata := by
+    have h1 := (sameInfo_constFrom inits (inputValT q vi)).2.2.2.2
+    have h2 := (sameInfo_applyQuant q (applyInfoT (IRValue.blank vi.name) vi)).2.2.2.2
+    rw [h1]
+    simp only [inputValT]
+    rw [h2]
+    simp [applyInfoT, IRValue.blank, dictUpdate_nil _ (nodup_dkeys_dictOfEntries _)]
+  have ht : (constFrom inits (inputValT q vi)).type = tyOf vi.type := by
+    rw [(sameInfo_constFrom inits (inputValT q vi)).2.1]
+    simp only [inputValT]
+    rw [(sameInfo_applyQuant q _).2.1]; rfl
+  have hs : (constFrom inits (inputValT q vi)).shape = shOf vi.type := by
+    rw [(sameInfo_constFrom inits (inputValT q vi)).2.2.1]
+    simp only [inputValT]
+    rw [(sameInfo_applyQuant q _).2.2.1]; rfl
+  have hd : (constFrom inits (inputValT q vi)).doc = vi.doc := by
+    rw [(sameInfo_constFrom inits (inputValT q vi)).2.2.2.1]
+    simp only [inputValT]
+    rw [(sameInfo_applyQuant q _).2.2.2.1]; rfl
+  generalize constFrom inits (inputValT q vi) = u at hm ht hs hd
+  cases u
+  simp only [applyInfoT] at hm ht hs hd ⊢
+  subst hm ht hs hd
+  simp [dictUpdate_of_subset (nodup_dkeys_dictOfEntries _) _ (fun x hx => hx)]
+
+/-- a graph input keeps its value even when it is also listed as a graph output (pass-through) -/
+theorem outUpd_input (hw : GraphWF inits inputs outputs vis quant outs) {vi : ValueInfoP}
+    (hvi : vi ∈ inputs) :
+    outUpd outputs (constFrom inits (inputValT quant vi)) = constFrom inits (inputValT quant vi) := by
+  by_cases hm : vi.name ∈ outputs.map (·.name)
+  · obtain ⟨vo, hvo, hn⟩ := List.mem_map.1 hm
+    have hvoin : vo ∈ inputs := hw.outInput vo hvo (by rw [hn]; exact List.mem_map_of_mem hvi)
+    have hAnd : (inputs.map (·.name)).Nodup := by
+      have hnd := hw.nodupNames
+      simp only [scopeNames] at hnd
+      rw [List.nodup_append] at hnd
+      have := hnd.1
+      rw [List.nodup_append] at this
+      exact this.1
+    have heq : vo = vi := by
+      have h1 := find?_of_nodup (fun v : ValueInfoP => v.name) hAnd hvoin
+      have h2 := find?_of_nodup (fun v : ValueInfoP => v.name) hAnd hvi
+      simp only [hn] at h1
+      rw [h2] at h1
+      exact (Option.some.inj h1).symm
+    subst heq
+    rw [outUpd_of_mem hw.nodupOut hvo (by simp)]
+    exact applyInfoT_self quant vo
+  · exact outUpd_id (by simpa using hm)
+
 theorem mem_tblFinal_input (hw : GraphWF inits inputs outputs vis quant outs) {vi : ValueInfoP}
     (hvi : vi ∈ inputs) :
     constFrom inits (inputValT quant vi) ∈ tblFinal inits inputs outputs vis quant outs := by
-  have hno : (constFrom inits (inputValT quant vi)).name ∉ outputs.map (·.name) := by
-    simp only [constFrom_name, inputValT_name]
-    intro hm
-    exact (hw.outNotInInit _ hm).1 (List.mem_map_of_mem hvi)
-  rw [← outUpd_id hno]
+  rw [← outUpd_input hw hvi]
   simp only [tblFinal, tblPre]
   apply List.mem_map_of_mem
   simp only [List.mem_append]
@@ -204,7 +277,8 @@ theorem mem_tblFinal_init (hw : GraphWF inits inputs outputs vis quant outs) {p 
   have hno : (initValT vis quant p).name ∉ outputs.map (·.name) := by
     simp only [initValT_name]
     intro hm
-    exact (hw.outNotInInit _ hm).2 (List.mem_map_of_mem hp)
+    obtain ⟨vo, hvo, hn⟩ := List.mem_map.1 hm
+    exact hw.outNotNewInit vo hvo (by rw [hn]; exact hni) (by rw [hn]; exact List.mem_map_of_mem hp)
   rw [← outUpd_id hno]
   simp only [tblFinal, tblPre]
   apply List.mem_map_of_mem
@@ -293,11 +367,7 @@ theorem ser_inputs (hw : GraphWF inits inputs outputs vis quant outs) :
   apply List.map_congr_left
   intro vi hvi
   simp only [Function.comp]
-  have hno : (constFrom inits (inputValT quant vi)).name ∉ outputs.map (·.name) := by
-    simp only [constFrom_name, inputValT_name]
-    intro hm
-    exact (hw.outNotInInit _ hm).1 (List.mem_map_of_mem hvi)
-  rw [outUpd_id hno]
+  rw [outUpd_input hw hvi]
   have : sameInfo (constFrom inits (inputValT quant vi)) (applyInfoT (IRValue.blank vi.name) vi) :=
     sameInfo_trans (sameInfo_constFrom inits _) (sameInfo_applyQuant quant _)
   rw [serValue_congr this]
@@ -326,11 +396,20 @@ theorem ser_outputs (hw : GraphWF inits inputs outputs vis quant outs) :
   | some i =>
     simp only [serGOut]
     have hmem := lookupLast_mem hl
-    have hno := hw.outNotInInit _ (List.mem_map_of_mem (f := (·.name)) hvo)
+    by_cases hin : vo.name ∈ inputs.map (·.name)
+    · -- pass-through: the output is a graph input
+      have hvoin := hw.outInput vo hvo hin
+      have hm := mem_tblFinal_input hw hvoin
+      rw [getD_tblFinal hw hl hm (by simp)]
+      have : sameInfo (constFrom inits (inputValT quant vo)) (applyInfoT (IRValue.blank vo.name) vo) :=
+        sameInfo_trans (sameInfo_constFrom inits _) (sameInfo_applyQuant quant _)
+      rw [serValue_congr this]
+      exact serValue_applyInfoT_blank vo hwf
+    have hno2 := hw.outNotNewInit vo hvo hin
     have hout : vo.name ∈ outs := by
       rcases mem_scopeNames.1 hmem with h | h | h
-      · exact absurd h hno.1
-      · exact absurd h.1 hno.2
+      · exact absurd h hin
+      · exact absurd h.1 hno2
       · exact h
     have hv := mem_tblFinal_out hw hout
     rw [outUpd_of_mem hw.nodupOut hvo (by simp)] at hv
@@ -710,22 +789,19 @@ theorem quantInputs_spec (tbl : List IRValue) (initNames : List String) :
 theorem quantOutputs_spec (hw : GraphWF inits inputs outputs vis quant outs) :
     ∀ (vos : List ValueInfoP) (seen : List Nat), (vos.map (·.name)).Nodup → (∀ vo ∈ vos, vo ∈ outputs) →
       (∀ vo ∈ vos, ∀ j, lookupLast (scopeNames (inputs.map (·.name)) (inits.map (·.name)) outs) vo.name
-          = some j → j ∉ seen) →
+          = some j → (vo.name ∈ inputs.map (·.name) → j ∈ seen) ∧ (vo.name ∉ inputs.map (·.name) → j ∉ seen)) →
       quantOutputs (tblFinal inits inputs outputs vis quant outs)
           (vos.map (gOutT (scopeNames (inputs.map (·.name)) (inits.map (·.name)) outs))) seen
-        = normQuantFor quant (vos.map (·.name))
+        = normQuantFor quant ((vos.map (·.name)).filter
+            (fun n => !(inputs.map (·.name)).contains n && !(inits.map (·.name)).contains n))
   | [], _, _, _, _ => rfl
   | vo :: vos, seen, hnd, hsub, hdis => by
     simp only [List.map_cons, List.nodup_cons] at hnd
     have hvo : vo ∈ outputs := hsub vo (by simp)
-    rw [List.map_cons, List.map_cons, normQuantFor_cons quant vo.name]
+    rw [List.map_cons, List.map_cons, List.filter_cons]
     simp only [gOutT]
     cases hl : lookupLast (scopeNames (inputs.map (·.name)) (inits.map (·.name)) outs) vo.name with
     | none =>
-      simp only [quantOutputs]
-      rw [quantOutputs_spec hw vos seen hnd.2 (fun v hv => hsub v (List.mem_cons_of_mem _ hv))
-        (fun v hv j hj => hdis v (List.mem_cons_of_mem _ hv) j hj)]
-      congr 1
       -- a graph output nobody produces carries no annotation, and none is declared for its name
       have hnm : vo.name ∉ scopeNames (inputs.map (·.name)) (inits.map (·.name)) outs := by
         intro hm
@@ -737,31 +813,53 @@ theorem quantOutputs_spec (hw : GraphWF inits inputs outputs vis quant outs) :
         | some a =>
           have := findAnnot_name hf
           exact absurd (by rw [← this.2]; exact (hw.quantOK a this.1).1) hnm
+      have hni : vo.name ∉ inputs.map (·.name) := fun h => hnm (mem_scopeNames.2 (Or.inl h))
+      have hnn : vo.name ∉ inits.map (·.name) := by
+        intro h
+        exact hnm (mem_scopeNames.2 (Or.inr (Or.inl ⟨h, hni⟩)))
+      have hc1 : (inputs.map (·.name)).contains vo.name = false := by simpa using hni
+      have hc2 : (inits.map (·.name)).contains vo.name = false := by simpa using hnn
+      simp only [quantOutputs, hc1, hc2, Bool.not_false, Bool.and_self, if_true]
+      rw [quantOutputs_spec hw vos seen hnd.2 (fun v hv => hsub v (List.mem_cons_of_mem _ hv))
+        (fun v hv j hj => hdis v (List.mem_cons_of_mem _ hv) j hj), normQuantFor_cons quant vo.name]
+      congr 1
       simp [quantOf, applyInfoT, IRValue.blank, normQuantFor, hfa]
     | some j =>
-      have hj : seen.contains j = false := by simpa using hdis vo (by simp) j hl
-      simp only [quantOutputs, hj, Bool.not_false, if_true]
-      rw [quantOutputs_spec hw vos (j :: seen) hnd.2 (fun v hv => hsub v (List.mem_cons_of_mem _ hv))
-        (by intro v hv k hk hm
-            rcases List.mem_cons.1 hm with rfl | hm
-            · have h1 := lookupLast_getElem hk
-              have h2 := lookupLast_getElem hl
-              rw [h1] at h2
-              exact hnd.1 (by rw [← Option.some.inj h2]; exact List.mem_map_of_mem hv)
-            · exact hdis v (List.mem_cons_of_mem _ hv) k hk hm)]
-      congr 1
-      have hmem := lookupLast_mem hl
-      have hno := hw.outNotInInit _ (List.mem_map_of_mem (f := (·.name)) hvo)
-      have hout : vo.name ∈ outs := by
-        rcases mem_scopeNames.1 hmem with h | h | h
-        · exact absurd h hno.1
-        · exact absurd h.1 hno.2
-        · exact h
-      have hv := mem_tblFinal_out hw hout
-      have hname : (outUpd outputs (newValueT vis quant vo.name)).name = vo.name := by simp
-      rw [getD_tblFinal hw hl hv hname]
-      have := quantOf_eq quant _ (quant_tblFinal hw hv)
-      rw [this, hname]
+      obtain ⟨hdin, hdout⟩ := hdis vo (by simp) j hl
+      by_cases hin : vo.name ∈ inputs.map (·.name)
+      · -- pass-through: the input loop (or the initializer loop) annotated this value already
+        have hj : seen.contains j = true := by simpa using hdin hin
+        have hc1 : (inputs.map (·.name)).contains vo.name = true := by simpa using hin
+        simp only [quantOutputs, hj, Bool.not_true, Bool.false_eq_true, if_false, hc1, Bool.false_and]
+        exact quantOutputs_spec hw vos seen hnd.2 (fun v hv => hsub v (List.mem_cons_of_mem _ hv))
+          (fun v hv k hk => hdis v (List.mem_cons_of_mem _ hv) k hk)
+      · have hj : seen.contains j = false := by simpa using hdout hin
+        have hno2 := hw.outNotNewInit vo hvo hin
+        have hc1 : (inputs.map (·.name)).contains vo.name = false := by simpa using hin
+        have hc2 : (inits.map (·.name)).contains vo.name = false := by simpa using hno2
+        simp only [quantOutputs, hj, Bool.not_false, if_true, hc1, hc2, Bool.and_self]
+        rw [quantOutputs_spec hw vos (j :: seen) hnd.2 (fun v hv => hsub v (List.mem_cons_of_mem _ hv))
+          (by intro v hv k hk
+              obtain ⟨a, b⟩ := hdis v (List.mem_cons_of_mem _ hv) k hk
+              refine ⟨fun h => List.mem_cons_of_mem _ (a h), fun h hm => ?_⟩
+              rcases List.mem_cons.1 hm with rfl | hm
+              · have h1 := lookupLast_getElem hk
+                have h2 := lookupLast_getElem hl
+                rw [h1] at h2
+                exact hnd.1 (by rw [← Option.some.inj h2]; exact List.mem_map_of_mem hv)
+              · exact b h hm), normQuantFor_cons quant vo.name]
+        congr 1
+        have hmem := lookupLast_mem hl
+        have hout : vo.name ∈ outs := by
+          rcases mem_scopeNames.1 hmem with h | h | h
+          · exact absurd h hin
+          · exact absurd h.1 hno2
+          · exact h
+        have hv := mem_tblFinal_out hw hout
+        have hname : (outUpd outputs (newValueT vis quant vo.name)).name = vo.name := by simp
+        rw [getD_tblFinal hw hl hv hname]
+        have := quantOf_eq quant _ (quant_tblFinal hw hv)
+        rw [this, hname]
 
 /-! ### assembling the graph round trip -/
 
@@ -781,12 +879,22 @@ theorem graphWF_of_wf (outer : Scopes) (name doc : String) (nodes : List NodeP)
   simp only [wfGraph, Bool.and_eq_true] at h
   obtain ⟨⟨⟨⟨⟨⟨⟨⟨⟨⟨⟨⟨⟨⟨h1, h2⟩, h3⟩, h4⟩, h5⟩, h6⟩, h7⟩, h8⟩, h9⟩, h10⟩, h11⟩, h12⟩, h13⟩, _h14⟩, h15⟩ := h
   refine ⟨⟨nodupStr_iff.1 h1, nodupStr_all_nonempty h2, nodupStr_iff.1 h3, h4, h5, h6, nodupStr_iff.1 h7,
-    ?_, nodupStr_iff.1 h9, ?_, h11, nodupStr_iff.1 h12, ?_⟩, h15⟩
+    ?_, nodupStr_iff.1 h9, ?_, ?_, h11, nodupStr_iff.1 h12, ?_⟩, h15⟩
   · intro vi hvi
     have := List.all_eq_true.1 h8 vi hvi
     simpa using this
-  · intro n hn
-    have := List.all_eq_true.1 h10 n hn
+  · intro vo hvo hin
+    have := List.all_eq_true.1 h10 vo hvo
+    have hc : (inputs.map (·.name)).contains vo.name = true := by
+      rw [List.contains_eq_mem]; exact decide_eq_true hin
+    rw [if_pos hc] at this
+    rw [List.contains_eq_mem] at this
+    exact of_decide_eq_true this
+  · intro vo hvo hin
+    have := List.all_eq_true.1 h10 vo hvo
+    have hc : ¬ (inputs.map (·.name)).contains vo.name = true := by
+      rw [List.contains_eq_mem]; simpa using hin
+    rw [if_neg hc] at this
     simpa using this
   · intro a ha
     have := List.all_eq_true.1 h13 a ha
@@ -987,11 +1095,7 @@ theorem graph_core (outer : Scopes) (ver : Option Int) (name doc : String) (node
       intro vi hvi
       have hvi' : vi ∈ inputs := (List.mem_filter.1 hvi).1
       have hm := mem_tblFinal_input hw hvi'
-      have hno : (constFrom inits (inputValT quant vi)).name ∉ outputs.map (·.name) := by
-        simp only [constFrom_name, inputValT_name]
-        intro hm'
-        exact (hw.outNotInInit _ hm').1 (List.mem_map_of_mem hvi')
-      rw [outUpd_id hno]
+      rw [outUpd_input hw hvi']
       have := quantOf_eq quant _ (quant_tblFinal hw hm)
       simpa using this
     -- the initializer loop of the annotations
@@ -1020,30 +1124,49 @@ theorem graph_core (outer : Scopes) (ver : Option Int) (name doc : String) (node
         ((tblFinal inits inputs outputs vis quant (nodeOutNames nodes)).getD i (IRValue.blank "")).name)).reverse ++ []))
       hw.nodupOut (fun _ h => h)
       (by
-        intro vo hvo j hj hm
+        intro vo hvo j hj
         have hjname := getD_name_of_lookup (tblFinal inits inputs outputs vis quant (nodeOutNames nodes))
           (by rw [hNfin]; exact hj)
-        have hno := hw.outNotInInit _ (List.mem_map_of_mem (f := (·.name)) hvo)
-        simp only [List.append_nil, List.mem_append, List.mem_reverse, List.mem_filter,
-          List.mem_range] at hm
-        rcases hm with hm | hm
-        · apply hno.2
-          rw [← hjname, ← s3]
-          exact List.mem_map_of_mem (f := fun i => ((tblFinal inits inputs outputs vis quant
-            (nodeOutNames nodes)).getD i (IRValue.blank "")).name) hm
-        · apply hno.1
-          rw [← hjname, ← f_inputNames]
-          exact List.mem_map_of_mem (f := fun i => ((tblFinal inits inputs outputs vis quant
-            (nodeOutNames nodes)).getD i (IRValue.blank "")).name) (List.mem_range.2 hm.1))
-    have hD : (outputs.map (·.name)).filter
-        (fun n => !(inputs.map (·.name)).contains n && !(inits.map (·.name)).contains n)
-        = outputs.map (·.name) := by
-      rw [List.filter_eq_self]
-      intro n hn
-      have := hw.outNotInInit n hn
-      simp [this.1, this.2]
+        refine ⟨fun hin => ?_, fun hin hm => ?_⟩
+        · -- a pass-through output: its value was annotated by the input or the initializer loop
+          simp only [List.append_nil, List.mem_append, List.mem_reverse, List.mem_filter,
+            List.mem_range]
+          by_cases hinit : vo.name ∈ inits.map (·.name)
+          · left
+            obtain ⟨p, hp, hpn⟩ := List.mem_map.1 hinit
+            have : some j ∈ idxs.map some := by
+              rw [hidx']
+              exact List.mem_map.2 ⟨p, hp, by simp only [hpn]; exact hj⟩
+            simpa using this
+          · right
+            have hlt : j < inputs.length := by
+              have hnB : vo.name ∉ (inits.map (·.name)).filter (fun n => !(inputs.map (·.name)).contains n)
+                  ++ nodeOutNames nodes := by
+                intro hm
+                rcases List.mem_append.1 hm with hm | hm
+                · exact hinit (List.mem_filter.1 hm).1
+                · exact hdisC _ (List.mem_append_left _ hin) _ hm rfl
+              have h1 : lookupLast (inputs.map (·.name)) vo.name = some j := by
+                rw [← lookupLast_append_left hnB]
+                simpa [scopeNames, List.append_assoc] using hj
+              simpa using lookupLast_lt h1
+            refine ⟨hlt, ?_⟩
+            rw [hjname]
+            simpa using hinit
+        · have hno2 := hw.outNotNewInit vo hvo hin
+          simp only [List.append_nil, List.mem_append, List.mem_reverse, List.mem_filter,
+            List.mem_range] at hm
+          rcases hm with hm | hm
+          · apply hno2
+            rw [← hjname, ← s3]
+            exact List.mem_map_of_mem (f := fun i => ((tblFinal inits inputs outputs vis quant
+              (nodeOutNames nodes)).getD i (IRValue.blank "")).name) hm
+          · apply hin
+            rw [← hjname, ← f_inputNames]
+            exact List.mem_map_of_mem (f := fun i => ((tblFinal inits inputs outputs vis quant
+              (nodeOutNames nodes)).getD i (IRValue.blank "")).name) (List.mem_range.2 hm.1))
     simp only [serGraph, hNfin, f_idx, s3, f_inputNames, f_qin, f_qinit, hD2, hD3, n1, n2, f_qout, s1,
       s2, ser_inputs hw, ser_outputs hw, bind, Except.bind, normGraph, f_qin_val, s4, normEntries,
-      normQuantFor_append, hD]
+      normQuantFor_append]
 
 end IrVerif.Serde
